@@ -280,9 +280,9 @@ Definition lex_one (prev : option ltoken) (i : instr_tok) : routcome (list ltoke
   match i with
   | IOpcode c =>
     if negb (lex_known_op c) then RErr E_LEX_INVALID_OP
-    else if c =? 105 then  (* OP_VERIFY: match ret.last() *)
+    else if c =? 105 then  (* OP_VERIFY: match ret.last() { Equal | NumEqual | CheckSig | CheckMultiSig => NonMinimalVerify } (NumEqual since /repo 22fc180a) *)
       match prev with
-      | Some (LTok 135) | Some (LTok 172) | Some (LTok 174) => RErr E_LEX_NONMIN_VERIFY
+      | Some (LTok 135) | Some (LTok 156) | Some (LTok 172) | Some (LTok 174) => RErr E_LEX_NONMIN_VERIFY
       | _ => ROk [LTok 105]
       end
     else if (c =? 136) || (c =? 157) || (c =? 173) || (c =? 175) then ROk [LTok (c - 1); LTok 105]
